@@ -39,6 +39,60 @@ func renderGuest(m Mod, app, idx int, nameKey, name string) obj {
 	return o
 }
 
+// dial is the upstream address (= hosts pool key) of reverse proxy key k in the current case.
+func dial(nonce, k int) string { return fmt.Sprintf("h%d-%d.invalid:80", nonce, k) }
+
+func curNonce() int {
+	mu.Lock()
+	defer mu.Unlock()
+	return caseNonce
+}
+
+// renderRp: the real reverse_proxy handler with one upstream. fault 3: an invalid trusted_proxies
+// entry makes Provision fail before the upstreams are set up; fault 4: an undecodable handler in
+// handle_response makes it fail after that.
+func renderRp(m Mod) obj {
+	o := obj{"handler": "reverse_proxy", "upstreams": []any{obj{"dial": dial(curNonce(), m.Key)}}}
+	switch m.Fault {
+	case 2:
+		o["bogus"] = 1
+	case 3:
+		o["trusted_proxies"] = []any{"not-an-ip"}
+	case 4:
+		o["handle_response"] = []any{obj{"routes": []any{obj{"handle": []any{obj{"handler": "static_response", "bogus": 1}}}}}}
+	}
+	return o
+}
+
+func abstractRp(o obj) (Mod, bool) {
+	ups, ok := o["upstreams"].([]any)
+	if !ok || len(ups) != 1 {
+		return Mod{}, false
+	}
+	u, _ := ups[0].(obj)
+	d, _ := u["dial"].(string)
+	k := -1
+	for i := 4; i < NAddr; i++ {
+		if d == dial(curNonce(), i) {
+			k = i
+		}
+	}
+	if k < 0 {
+		return Mod{}, false
+	}
+	f, n := 0, 0
+	if _, ok := o["bogus"]; ok {
+		f, n = 2, n+1
+	}
+	if _, ok := o["trusted_proxies"]; ok {
+		f, n = 3, n+1
+	}
+	if _, ok := o["handle_response"]; ok {
+		f, n = 4, n+1
+	}
+	return Mod{f, k}, n <= 1
+}
+
 func appKey(n int) string {
 	if n == 3 {
 		return "http"
@@ -52,18 +106,26 @@ func renderApp(a App) obj {
 		listen = append(listen, addrs[ad])
 	}
 	if a.IsHTTP() {
-		handle := []any{}
+		// one route per guest, in order (routes are provisioned in order): probe middlewares fall
+		// through to the next route, reverse proxies sit behind a path nobody requests, the last
+		// route answers with the tag
+		routes := []any{}
 		for j, m := range a.Mods {
-			handle = append(handle, renderGuest(m, 3, j+1, "handler", "verif_probe"))
+			if m.IsRp() {
+				routes = append(routes, obj{"match": []any{obj{"path": []any{"/verif-rp-never"}}},
+					"handle": []any{renderRp(m)}})
+			} else {
+				routes = append(routes, obj{"handle": []any{renderGuest(m, 3, j+1, "handler", "verif_probe")}})
+			}
 		}
-		handle = append(handle, obj{"handler": "static_response", "body": "T" + strconv.Itoa(a.Tag)})
+		routes = append(routes, obj{"handle": []any{obj{"handler": "static_response", "body": "T" + strconv.Itoa(a.Tag)}}})
 		o := obj{
 			"servers": obj{"s": obj{
 				"listen":            listen,
 				"listener_wrappers": []any{obj{"wrapper": "verif_probe"}},
 				"automatic_https":   obj{"disable": true},
 				"protocols":         []any{"h1"},
-				"routes":            []any{obj{"handle": handle}},
+				"routes":            routes,
 			}},
 		}
 		if a.Fault == 2 {
@@ -180,7 +242,7 @@ func abstractGuest(v any, nameKey, name string) (Mod, bool) {
 	}
 	f, ok1 := faultOf(o, nameKey, name)
 	k, ok2 := num(o["key"])
-	return Mod{f, k}, ok1 && ok2 && f <= 4
+	return Mod{f, k}, ok1 && ok2 && f <= 4 && k < 4
 }
 
 func abstractListen(v any) ([]int, bool) {
@@ -219,23 +281,34 @@ func abstractApp(key string, v any) (App, bool) {
 			return App{}, false
 		}
 		routes, ok := s["routes"].([]any)
-		if !ok || len(routes) != 1 {
-			return App{}, false
-		}
-		r0, _ := routes[0].(obj)
-		handle, ok := r0["handle"].([]any)
-		if !ok || len(handle) == 0 {
+		if !ok || len(routes) == 0 {
 			return App{}, false
 		}
 		var mods []Mod
-		for _, h := range handle[:len(handle)-1] {
-			m, ok := abstractGuest(h, "handler", "verif_probe")
+		for _, r := range routes[:len(routes)-1] {
+			ro, _ := r.(obj)
+			hs, ok := ro["handle"].([]any)
+			if !ok || len(hs) != 1 {
+				return App{}, false
+			}
+			ho, _ := hs[0].(obj)
+			var m Mod
+			if ho["handler"] == "reverse_proxy" {
+				m, ok = abstractRp(ho)
+			} else {
+				m, ok = abstractGuest(ho, "handler", "verif_probe")
+			}
 			if !ok {
 				return App{}, false
 			}
 			mods = append(mods, m)
 		}
-		last, _ := handle[len(handle)-1].(obj)
+		rl, _ := routes[len(routes)-1].(obj)
+		hl, ok := rl["handle"].([]any)
+		if !ok || len(hl) != 1 {
+			return App{}, false
+		}
+		last, _ := hl[0].(obj)
 		body, _ := last["body"].(string)
 		if last["handler"] != "static_response" || !strings.HasPrefix(body, "T") {
 			return App{}, false
